@@ -55,6 +55,16 @@ def check_one(con, hooks, inputs, timeout_s):
             c.snapshot(env)
         except Exception as e:
             problems.append(f"old() of {c.label}: {e!r}")
+    whens = []
+    for k, (exc, when, iff) in enumerate(con.raises_):
+        if k in con.at_raise:
+            whens.append(None)
+            continue
+        try:
+            whens.append(bool(eval(when, dict(env))))
+        except Exception as e:
+            whens.append(None)
+            problems.append(f"raises {exc} when: {e!r}")
     kind, val = call_with_limit(built["call"], built.get("args", []), built.get("kwargs", {}), timeout_s)
     failed = []
     summary = {"kind": kind}
@@ -66,7 +76,14 @@ def check_one(con, hooks, inputs, timeout_s):
         declared = [e for (e, w, iff) in con.raises_]
         if not any(n in declared for n in names):
             failed.append(f"no-undeclared-exception.{names[0]}")
+        else:
+            ws = [w for (e, _, _), w in zip(con.raises_, whens) if e in names]
+            if ws and all(w is False for w in ws):
+                failed.append(f"raises.{names[0]}.when")
     else:
+        for (e, _, iff), w in zip(con.raises_, whens):
+            if iff and w is True:
+                failed.append(f"raises.{e}.iff")
         env["result"] = val
         summary["result"] = hooks.get("show", repr)(val)[:300] if val is not None else None
         if built.get("post_env"):
